@@ -190,7 +190,19 @@ func TestC12_UptimeDuringTeardown(t *testing.T) {
 			}()
 		}
 		time.Sleep(2 * time.Millisecond)
-		c.Close()
+		// Close is a no-op until the connect goroutine has published its cancel function (on a
+		// loaded machine that can take longer than the sleep above): keep closing until Connect returns.
+		closer := make(chan struct{})
+		go func() {
+			for {
+				c.Close()
+				select {
+				case <-closer:
+					return
+				case <-time.After(5 * time.Millisecond):
+				}
+			}
+		}()
 		select {
 		case p := <-panicked:
 			atomic.StoreInt32(&stop, 1)
@@ -205,6 +217,7 @@ func TestC12_UptimeDuringTeardown(t *testing.T) {
 				t.Fatal("connect did not return")
 			}
 		}
+		close(closer)
 		atomic.StoreInt32(&stop, 1)
 		wg.Wait()
 		in.Close()
